@@ -8,6 +8,12 @@
 //! Byte j of stream i in direction d is a fixed function of (i, d, j) and the first four bytes the
 //! opener writes are a tag naming the stream, so every received byte is checked against the one
 //! sequence it may belong to.
+//!
+//! Case classes: the *general* class (small writes, any chunking) and a small *bulk* class: one
+//! substream carries 130..300 KiB written without an intermediate flush over a pipe whose written
+//! direction is bounded, so that the muxer's send buffer goes above its high-water mark while the
+//! connection's `poll_write` is Pending, and the half-close is issued in exactly that state; the
+//! other side answers only after it has seen end-of-stream (`WOp::AwaitEof`, request/response).
 
 use futures::future::poll_fn;
 use futures::io::{AsyncRead, AsyncReadExt, AsyncWrite, AsyncWriteExt};
@@ -18,13 +24,14 @@ use proptest::prelude::*;
 use serde::{Deserialize, Serialize};
 use serde_json::json;
 use std::any::Any;
+use std::cell::Cell;
 use std::collections::VecDeque;
 use std::pin::Pin;
 use std::sync::{Arc, Mutex};
-use std::task::Poll;
+use std::task::{Poll, Waker};
 use vcore::runner::LANES;
 use vcore::simexec::Exec;
-use vcore::simio::{self, DirCfg, Duplex, Script};
+use vcore::simio::{self, DirCfg, Duplex, Script, Step};
 use vcore::{Ctx, Outcome};
 
 #[derive(Clone, Debug, Serialize, Deserialize, PartialEq)]
@@ -39,7 +46,15 @@ pub enum WOp {
     Write(u16),
     Flush,
     Close,
+    /// write n KiB (all of it, like `Write`)
+    Bulk(u16),
+    /// wait until this endpoint's reader of the *other* direction of the same substream has seen
+    /// end-of-stream (request/response: answer only after the whole request)
+    AwaitEof,
 }
+
+/// send high-water mark of the `asynchronous_codec::Framed` sink mplex writes into
+const HWM: u64 = 128 * 1024;
 
 #[derive(Clone, Debug, Serialize, Deserialize)]
 pub struct StreamSpec {
@@ -82,6 +97,11 @@ struct DirState {
     closed: bool,
     writer_started: bool,
     writer_done: bool,
+    /// the writer is parked in `AwaitEof`
+    awaiting: bool,
+    /// probes: this half's close hit send back-pressure / bytes were written after an AwaitEof
+    close_bp: bool,
+    resp_after_eof: bool,
     recv: usize,
     eof: bool,
 }
@@ -95,6 +115,24 @@ struct Shared {
     opened: usize,
     /// finished halves are parked here so that no substream is dropped (= reset) before the end
     graveyard: Vec<Box<dyn Any + Send>>,
+    /// wakers of writers parked in `AwaitEof`, indexed like `dirs` by the direction whose EOF they wait for
+    eof_wakers: Vec<[Option<Waker>; 2]>,
+    /// the two pipe ends (0 = endpoint A) and the bytes of the Data frames (mplex encoding) that the
+    /// substreams of each endpoint accepted
+    pipes: Vec<Duplex>,
+    payload: [u64; 2],
+    // generator-distribution probes (labels only)
+    sink_above_hwm: bool,
+    close_under_backpressure: bool,
+    response_after_eof: bool,
+}
+
+impl Shared {
+    /// lower bound of the bytes queued in the mplex send buffer of endpoint `side`: Data frames its
+    /// substreams accepted minus everything (any frame) that already reached the pipe
+    fn sink_lower_bound(&self, side: usize) -> u64 {
+        self.pipes.get(side).map(|p| self.payload[side].saturating_sub(p.written())).unwrap_or(0)
+    }
 }
 
 type Sh = Arc<Mutex<Shared>>;
@@ -106,7 +144,7 @@ fn set_bad(sh: &Sh, sig: &str, detail: String) {
     }
 }
 
-async fn writer<W: AsyncWrite + Unpin + Send + 'static>(mut w: W, i: usize, d: usize, script: Vec<WOp>, sh: Sh) {
+async fn writer<W: AsyncWrite + Unpin + Send + 'static>(mut w: W, i: usize, d: usize, side: usize, script: Vec<WOp>, sh: Sh) {
     sh.lock().unwrap().dirs[i][d].writer_started = true;
     let mut ops: Vec<WOp> = vec![];
     if d == 0 {
@@ -114,14 +152,20 @@ async fn writer<W: AsyncWrite + Unpin + Send + 'static>(mut w: W, i: usize, d: u
     }
     ops.extend(script);
     let mut closed = false;
+    let mut awaited = false;
     for op in ops {
         if closed {
             break;
         }
         match op {
-            WOp::Write(n) => {
+            WOp::Write(_) | WOp::Bulk(_) => {
+                let n = match op {
+                    WOp::Write(n) => n as usize,
+                    WOp::Bulk(k) => k as usize * 1024,
+                    _ => unreachable!(),
+                };
                 let start = sh.lock().unwrap().dirs[i][d].sent;
-                let data: Vec<u8> = (start..start + n as usize).map(|j| byte(i, d, j)).collect();
+                let data: Vec<u8> = (start..start + n).map(|j| byte(i, d, j)).collect();
                 let mut off = 0;
                 while off < data.len() {
                     match w.write(&data[off..]).await {
@@ -132,7 +176,18 @@ async fn writer<W: AsyncWrite + Unpin + Send + 'static>(mut w: W, i: usize, d: u
                         }
                         Ok(k) => {
                             off += k;
-                            sh.lock().unwrap().dirs[i][d].sent += k;
+                            let mut g = sh.lock().unwrap();
+                            g.dirs[i][d].sent += k;
+                            // one write = one mplex Data frame: header varint (1 byte for the ids used
+                            // here) + length varint + payload
+                            g.payload[side] += k as u64 + 1 + if k < 128 { 1 } else if k < 16384 { 2 } else { 3 };
+                            if g.sink_lower_bound(side) >= HWM {
+                                g.sink_above_hwm = true;
+                            }
+                            if awaited {
+                                g.response_after_eof = true;
+                                g.dirs[i][d].resp_after_eof = true;
+                            }
                         }
                         Err(e) => {
                             set_bad(&sh, "C24:unexpected-error", format!("stream {i} dir {d}: write failed: {e}"));
@@ -153,7 +208,24 @@ async fn writer<W: AsyncWrite + Unpin + Send + 'static>(mut w: W, i: usize, d: u
             }
             WOp::Close => {
                 let upto = sh.lock().unwrap().dirs[i][d].sent;
-                if let Err(e) = w.close().await {
+                // probe: the first poll of the close found the send buffer above the high-water mark
+                // and left it there, i.e. the Close frame itself could not be queued (back-pressure)
+                let above_before = sh.lock().unwrap().sink_lower_bound(side) >= HWM;
+                let mut first = true;
+                let res = poll_fn(|cx| {
+                    let r = Pin::new(&mut w).poll_close(cx);
+                    if first {
+                        first = false;
+                        let mut g = sh.lock().unwrap();
+                        if above_before && r.is_pending() && g.sink_lower_bound(side) >= HWM {
+                            g.close_under_backpressure = true;
+                            g.dirs[i][d].close_bp = true;
+                        }
+                    }
+                    r
+                })
+                .await;
+                if let Err(e) = res {
                     set_bad(&sh, "C24:unexpected-error", format!("stream {i} dir {d}: close failed: {e}"));
                     break;
                 }
@@ -161,6 +233,21 @@ async fn writer<W: AsyncWrite + Unpin + Send + 'static>(mut w: W, i: usize, d: u
                 g.dirs[i][d].flushed = upto;
                 g.dirs[i][d].closed = true;
                 closed = true;
+            }
+            WOp::AwaitEof => {
+                sh.lock().unwrap().dirs[i][d].awaiting = true;
+                poll_fn(|cx| {
+                    let mut g = sh.lock().unwrap();
+                    if g.dirs[i][1 - d].eof {
+                        Poll::Ready(())
+                    } else {
+                        g.eof_wakers[i][1 - d] = Some(cx.waker().clone());
+                        Poll::Pending
+                    }
+                })
+                .await;
+                sh.lock().unwrap().dirs[i][d].awaiting = false;
+                awaited = true;
             }
         }
     }
@@ -173,13 +260,18 @@ async fn writer<W: AsyncWrite + Unpin + Send + 'static>(mut w: W, i: usize, d: u
 async fn reader<R: AsyncRead + Unpin + Send + 'static>(mut r: R, i: usize, d: usize, from: usize, sizes: Vec<u16>, sh: Sh) {
     let mut pos = from;
     let mut k = 0usize;
+    let mut store = vec![0u8; sizes.iter().copied().max().unwrap_or(1).max(1) as usize];
     loop {
         let n = sizes[k % sizes.len()].max(1) as usize;
         k += 1;
-        let mut buf = vec![0u8; n];
-        match r.read(&mut buf).await {
+        let buf = &mut store[..n];
+        match r.read(buf).await {
             Ok(0) => {
-                sh.lock().unwrap().dirs[i][d].eof = true;
+                let mut g = sh.lock().unwrap();
+                g.dirs[i][d].eof = true;
+                if let Some(w) = g.eof_wakers[i][d].take() {
+                    w.wake();
+                }
                 break;
             }
             Ok(m) => {
@@ -241,7 +333,7 @@ async fn accepted<S: AsyncRead + AsyncWrite + Unpin + Send + 'static>(sub: S, si
         g.accepted[i] = true;
         g.dirs[i][0].recv = 4;
     }
-    ex.spawn(writer(w, i, 1, specs[i].acceptor_script.clone(), sh.clone()));
+    ex.spawn(writer(w, i, 1, if side_is_a { 0 } else { 1 }, specs[i].acceptor_script.clone(), sh.clone()));
     reader(r, i, 0, 4, specs[i].acceptor_reads.clone(), sh).await;
 }
 
@@ -265,7 +357,7 @@ where
                     to_open.pop_front();
                     sh.lock().unwrap().opened += 1;
                     let (r, w) = sub.split();
-                    ex.spawn(writer(w, i, 0, specs[i].opener_script.clone(), sh.clone()));
+                    ex.spawn(writer(w, i, 0, if side_is_a { 0 } else { 1 }, specs[i].opener_script.clone(), sh.clone()));
                     ex.spawn(reader(r, i, 1, 0, specs[i].opener_reads.clone(), sh.clone()));
                 }
                 Poll::Ready(Err(e)) => {
@@ -301,6 +393,60 @@ where
     })
 }
 
+// ---------------------------------------------------------------------------------------------
+// generator probe: how many frames mplex parked in one substream's receive buffer. mplex reports
+// every buffered frame as a TRACE event carrying `data_buffer` = resulting buffer length; a
+// subscriber that is interested in that one call site only records the maximum per case. Used for
+// a label (distribution of the generator) and nothing else.
+
+thread_local! {
+    static MAX_BUFFERED: Cell<u64> = const { Cell::new(0) };
+    static PROBE: tracing::subscriber::DefaultGuard = tracing::subscriber::set_default(BufProbe);
+}
+
+struct BufProbe;
+
+fn probed(m: &tracing::Metadata<'_>) -> bool {
+    m.is_event() && m.target().starts_with("libp2p_mplex") && m.fields().field("data_buffer").is_some()
+}
+
+struct BufVisit(u64);
+impl tracing::field::Visit for BufVisit {
+    fn record_debug(&mut self, field: &tracing::field::Field, value: &dyn std::fmt::Debug) {
+        if field.name() == "data_buffer" {
+            self.0 = format!("{value:?}").parse().unwrap_or(0);
+        }
+    }
+}
+
+impl tracing::Subscriber for BufProbe {
+    fn register_callsite(&self, m: &'static tracing::Metadata<'static>) -> tracing::subscriber::Interest {
+        if probed(m) {
+            tracing::subscriber::Interest::always()
+        } else {
+            tracing::subscriber::Interest::never()
+        }
+    }
+    fn enabled(&self, m: &tracing::Metadata<'_>) -> bool {
+        probed(m)
+    }
+    fn max_level_hint(&self) -> Option<tracing::level_filters::LevelFilter> {
+        Some(tracing::level_filters::LevelFilter::TRACE)
+    }
+    fn new_span(&self, _: &tracing::span::Attributes<'_>) -> tracing::span::Id {
+        tracing::span::Id::from_u64(1)
+    }
+    fn record(&self, _: &tracing::span::Id, _: &tracing::span::Record<'_>) {}
+    fn record_follows_from(&self, _: &tracing::span::Id, _: &tracing::span::Id) {}
+    fn event(&self, e: &tracing::Event<'_>) {
+        let mut v = BufVisit(0);
+        e.record(&mut v);
+        MAX_BUFFERED.with(|m| m.set(m.get().max(v.0)));
+    }
+    fn enter(&self, _: &tracing::span::Id) {}
+    fn exit(&self, _: &tracing::span::Id) {}
+}
+
 struct ClearOnDrop(Exec);
 impl Drop for ClearOnDrop {
     fn drop(&mut self) {
@@ -312,10 +458,17 @@ fn check(case: &Case) -> Outcome {
     if case.streams.is_empty() || case.streams.len() > 16 {
         return Outcome::Discard;
     }
+    let is_mplex = matches!(case.kind, Kind::Mplex { .. });
+    if is_mplex {
+        PROBE.with(|_| ());
+        MAX_BUFFERED.with(|m| m.set(0));
+    }
     let (a, b): (Duplex, Duplex) = simio::pair(case.a_to_b.clone(), case.b_to_a.clone());
     let sh: Sh = Arc::new(Mutex::new(Shared {
         dirs: vec![Default::default(); case.streams.len()],
         accepted: vec![false; case.streams.len()],
+        eof_wakers: vec![Default::default(); case.streams.len()],
+        pipes: vec![a.clone(), b.clone()],
         ..Default::default()
     }));
     let specs = Arc::new(case.streams.clone());
@@ -362,42 +515,80 @@ fn check(case: &Case) -> Outcome {
         concurrent_streams = concurrent_streams.max(active);
     }
     let quiescent = ex.drain(3_000_000);
-    let g = sh.lock().unwrap();
-    if let Some((sig, detail)) = &g.bad {
-        return Outcome::fail(sig.clone(), json!({"what": detail, "kind": format!("{:?}", case.kind)}));
+    let kind_s = format!("{:?}", case.kind);
+    // end-state oracle; None = fine
+    let verdict = |g: &Shared| -> Option<(String, serde_json::Value)> {
+        let dump = |g: &Shared| json!({"kind": kind_s, "streams": g.dirs.iter().map(|d| format!("{d:?}")).collect::<Vec<_>>(), "opened": g.opened});
+        let fail = |sig: &str, v: serde_json::Value| Some((sig.to_string(), v));
+        if g.opened != case.streams.len() {
+            return fail("C24:stall", json!({"what": "not every substream could be opened", "state": dump(g)}));
+        }
+        for (i, d2) in g.dirs.iter().enumerate() {
+            for (d, s) in d2.iter().enumerate() {
+                if s.recv > s.sent {
+                    return fail("C24:received-more-than-written", json!({"stream": i, "dir": d, "state": dump(g)}));
+                }
+                // a writer parked in AwaitEof whose peer never closed is waiting legitimately; if the peer
+                // did close, the missing EOF is reported below
+                if s.writer_started && !s.writer_done && !s.awaiting {
+                    return fail("C24:stall", json!({"what": format!("writer of stream {i} dir {d} never finished"), "state": dump(g)}));
+                }
+                if s.recv < s.flushed {
+                    return fail("C24:flushed-bytes-not-delivered", json!({"stream": i, "dir": d, "state": dump(g)}));
+                }
+                if s.closed && s.recv != s.sent {
+                    return fail("C24:bytes-lost-before-eof", json!({"stream": i, "dir": d, "state": dump(g)}));
+                }
+                if s.closed && !s.eof {
+                    return fail("C24:no-eof-after-close", json!({"stream": i, "dir": d, "state": dump(g)}));
+                }
+                if s.eof && !s.closed {
+                    return fail("C24:eof-before-writer-closed", json!({"stream": i, "dir": d, "state": dump(g)}));
+                }
+            }
+        }
+        None
+    };
+    {
+        let g = sh.lock().unwrap();
+        if let Some((sig, detail)) = &g.bad {
+            return Outcome::fail(sig.clone(), json!({"what": detail, "kind": kind_s}));
+        }
     }
     if !quiescent {
         return Outcome::Inconclusive("tasks still runnable after 3e6 polls".into());
     }
-    let dump = |g: &Shared| json!({"kind": format!("{:?}", case.kind), "streams": g.dirs.iter().map(|d| format!("{d:?}")).collect::<Vec<_>>(), "opened": g.opened});
-    if g.opened != case.streams.len() {
-        return Outcome::fail("C24:stall", json!({"what": "not every substream could be opened", "state": dump(&g)}));
+    let first = verdict(&sh.lock().unwrap());
+    if let Some((sig, detail)) = first {
+        // Classification only (the case fails either way): if progress is missing at quiescence, poll
+        // every parked task once without a wake-up and drain again. When that completes the case, no
+        // task was blocked on anything but a notification the muxer owed it: a lost wake-up.
+        if matches!(sig.as_str(), "C24:stall" | "C24:flushed-bytes-not-delivered" | "C24:no-eof-after-close") {
+            for _ in 0..4 {
+                for id in ex.alive() {
+                    ex.poll_task(id);
+                }
+                if !ex.drain(3_000_000) {
+                    break;
+                }
+                let g = sh.lock().unwrap();
+                if let Some((sig, detail)) = &g.bad {
+                    return Outcome::fail(sig.clone(), json!({"what": detail, "kind": kind_s, "after": "spurious polls at quiescence"}));
+                }
+                if verdict(&g).is_none() {
+                    let name = if is_mplex { "C24:mplex-lost-wakeup" } else { "C24:yamux-lost-wakeup" };
+                    return Outcome::fail(name, json!({"what": "at quiescence a substream task was parked although it could make progress: polling every parked task once (no wake-up) and draining completed the case", "at_quiescence": {"signature": sig, "detail": detail}}));
+                }
+            }
+        }
+        return Outcome::fail(sig, detail);
     }
+    let g = sh.lock().unwrap();
     let mut half_closed = false;
     let mut interleaved = concurrent_streams >= 2;
     let mut total = 0usize;
-    for (i, d2) in g.dirs.iter().enumerate() {
-        for (d, s) in d2.iter().enumerate() {
-            total += s.recv;
-            if s.recv > s.sent {
-                return Outcome::fail("C24:received-more-than-written", json!({"stream": i, "dir": d, "state": dump(&g)}));
-            }
-            if s.writer_started && !s.writer_done {
-                return Outcome::fail("C24:stall", json!({"what": format!("writer of stream {i} dir {d} never finished"), "state": dump(&g)}));
-            }
-            if s.recv < s.flushed {
-                return Outcome::fail("C24:flushed-bytes-not-delivered", json!({"stream": i, "dir": d, "state": dump(&g)}));
-            }
-            if s.closed && s.recv != s.sent {
-                return Outcome::fail("C24:bytes-lost-before-eof", json!({"stream": i, "dir": d, "state": dump(&g)}));
-            }
-            if s.closed && !s.eof {
-                return Outcome::fail("C24:no-eof-after-close", json!({"stream": i, "dir": d, "state": dump(&g)}));
-            }
-            if s.eof && !s.closed {
-                return Outcome::fail("C24:eof-before-writer-closed", json!({"stream": i, "dir": d, "state": dump(&g)}));
-            }
-        }
+    for d2 in g.dirs.iter() {
+        total += d2[0].recv + d2[1].recv;
         if d2[0].closed != d2[1].closed && d2[0].sent > 4 && d2[1].sent > 0 {
             half_closed = true;
         }
@@ -419,16 +610,48 @@ fn check(case: &Case) -> Outcome {
     if case.streams.iter().any(|s| s.a_opens) && case.streams.iter().any(|s| !s.a_opens) {
         labels.push("both_sides_open");
     }
+    if case.streams.iter().any(|s| s.opener_script.iter().chain(&s.acceptor_script).any(|o| matches!(o, WOp::Bulk(_)))) {
+        labels.push("bulk");
+    }
+    if g.response_after_eof {
+        labels.push("response-after-eof");
+    }
+    if is_mplex {
+        if g.sink_above_hwm {
+            labels.push("sink-above-high-water-mark");
+        }
+        if g.close_under_backpressure {
+            labels.push("close-under-backpressure");
+            if g.dirs.iter().any(|d| (d[0].close_bp && d[1].resp_after_eof) || (d[1].close_bp && d[0].resp_after_eof)) {
+                labels.push("close-under-backpressure-then-peer-writes");
+            }
+        }
+        let mb = MAX_BUFFERED.with(|m| m.get());
+        if mb >= 2 {
+            labels.push("buffered>=2-frames");
+        }
+        if mb >= 3 {
+            labels.push("buffered>=3-frames");
+        }
+        if mb >= 5 {
+            labels.push("buffered>=5-frames");
+        }
+    }
     Outcome::pass_l(interleaved && total > 8 && g.dirs.iter().any(|d| d[0].closed || d[1].closed), labels)
 }
 
 // ---------------------------------------------------------------------------------------------
 
+fn wsize() -> impl Strategy<Value = u16> {
+    prop_oneof![5 => 1u16..=40, 3 => 41u16..=600, 1 => 601u16..=4096]
+}
+
 fn wop() -> impl Strategy<Value = WOp> {
     prop_oneof![
-        6 => prop_oneof![5 => 1u16..=40, 3 => 41u16..=600, 1 => 601u16..=4096].prop_map(WOp::Write),
-        3 => Just(WOp::Flush),
-        2 => Just(WOp::Close),
+        12 => wsize().prop_map(WOp::Write),
+        6 => Just(WOp::Flush),
+        4 => Just(WOp::Close),
+        1 => Just(WOp::AwaitEof),
     ]
 }
 
@@ -466,20 +689,138 @@ fn kind(yamux: bool) -> BoxedStrategy<Kind> {
     }
 }
 
-fn strategy(yamux: bool) -> impl Strategy<Value = Case> {
+fn schedule() -> impl Strategy<Value = Vec<u16>> {
+    proptest::collection::vec(prop_oneof![12 => any::<u16>(), 1 => Just(u16::MAX)], 0..=300)
+}
+
+fn general(yamux: bool) -> impl Strategy<Value = Case> {
     // yamux (external crate, 0.14) stops reading while it owes a Pong it cannot write; with both
     // pipe directions full and both initial pings crossing, the two connections block each other.
     // That is a property of the transport buffering yamux needs, not of substream delivery, so the
     // yamux pipes are unbounded (chunking and spurious Pending are still generated).
     let dir = move || if yamux { simio::dircfg_strategy(30).boxed() } else { pipe_dir().boxed() };
-    (
-        kind(yamux),
-        dir(),
-        dir(),
-        proptest::collection::vec(stream_spec(), 1..=5),
-        proptest::collection::vec(prop_oneof![12 => any::<u16>(), 1 => Just(u16::MAX)], 0..=300),
-    )
+    (kind(yamux), dir(), dir(), proptest::collection::vec(stream_spec(), 1..=5), schedule())
         .prop_map(|(kind, a_to_b, b_to_a, streams, schedule)| Case { kind, a_to_b, b_to_a, streams, schedule })
+}
+
+// ---- bulk class ------------------------------------------------------------------------------
+
+/// pipe direction for bulk cases: chunks of at least 1 KiB (cost), spurious Pending, generated capacity
+fn bulk_dir(cap: BoxedStrategy<Option<u32>>) -> impl Strategy<Value = DirCfg> {
+    let script = || {
+        (
+            proptest::collection::vec(prop_oneof![4 => (1024u16..=u16::MAX).prop_map(Step::Chunk), 1 => Just(Step::Chunk(0)), 2 => Just(Step::Pending)], 0..=12),
+            prop_oneof![2 => Just(0u16), 1 => Just(1024u16), 1 => Just(4096u16), 1 => Just(8192u16), 1 => Just(u16::MAX)],
+        )
+            .prop_map(|(steps, default_chunk)| Script { steps, default_chunk })
+    };
+    (script(), script(), cap).prop_map(|(read, write, capacity)| DirCfg { read, write, capacity })
+}
+
+fn big_reads() -> impl Strategy<Value = Vec<u16>> {
+    proptest::collection::vec(prop_oneof![Just(1024u16), Just(4096u16), 256u16..=u16::MAX], 1..=3)
+}
+
+/// the request: optional small prefix, 130..300 KiB in one or two writes with no flush in between,
+/// optionally a small write, then (90 %) the half-close
+fn bulk_request() -> impl Strategy<Value = Vec<WOp>> {
+    (
+        proptest::collection::vec(prop_oneof![2 => wsize().prop_map(WOp::Write), 1 => Just(WOp::Flush)], 0..=2),
+        130u16..=200,
+        prop_oneof![2 => Just(0u16), 1 => 1u16..=100],
+        prop_oneof![3 => Just(0u16), 1 => 1u16..=600],
+        prop::bool::weighted(0.9),
+    )
+        .prop_map(|(mut v, k1, k2, tail, close)| {
+            v.push(WOp::Bulk(k1));
+            if k2 > 0 {
+                v.push(WOp::Bulk(k2));
+            }
+            if tail > 0 {
+                v.push(WOp::Write(tail));
+            }
+            if close {
+                v.push(WOp::Close);
+            }
+            v
+        })
+}
+
+/// the response: (75 %) only after the request's end-of-stream was seen; small writes, sometimes bulk
+fn bulk_response() -> impl Strategy<Value = Vec<WOp>> {
+    (
+        proptest::collection::vec(prop_oneof![2 => wsize().prop_map(WOp::Write), 1 => Just(WOp::Flush)], 0..=2),
+        prop::bool::weighted(0.75),
+        proptest::collection::vec(prop_oneof![8 => wsize().prop_map(WOp::Write), 3 => Just(WOp::Flush), 1 => (130u16..=160).prop_map(WOp::Bulk)], 1..=3),
+        prop::bool::weighted(0.7),
+    )
+        .prop_map(|(mut v, wait, body, close)| {
+            if wait {
+                v.push(WOp::AwaitEof);
+            }
+            v.extend(body);
+            if close {
+                v.push(WOp::Close);
+            }
+            v
+        })
+}
+
+fn bulk_stream() -> impl Strategy<Value = StreamSpec> {
+    (any::<bool>(), prop_oneof![3 => Just(0u8), 2 => 1u8..=12], bulk_request(), prop_oneof![4 => bulk_response().boxed(), 1 => script().boxed()], reads(), big_reads()).prop_map(
+        |(a_opens, open_delay, opener_script, acceptor_script, mut opener_reads, acceptor_reads)| {
+            if acceptor_script.iter().any(|o| matches!(o, WOp::Bulk(_))) {
+                for r in opener_reads.iter_mut() {
+                    *r = (*r).max(256);
+                }
+            }
+            StreamSpec { a_opens, open_delay, opener_script, acceptor_script, opener_reads, acceptor_reads }
+        },
+    )
+}
+
+fn bulk(yamux: bool) -> impl Strategy<Value = Case> {
+    let kind = if yamux {
+        Just(Kind::Yamux).boxed()
+    } else {
+        let c = || (prop_oneof![1 => Just(256u16), 1 => Just(1024u16), 1 => Just(4096u16), 2 => Just(8192u16), 1 => Just(16384u16), 1 => Just(u16::MAX)], 1u8..=8);
+        (c(), c()).prop_map(|(a, b)| Kind::Mplex { a, b }).boxed()
+    };
+    // The direction the request is written into is bounded (unless yamux, see `general`). 60 % of
+    // the time its capacity is below the writer's frame size (256 B .. 256 B + split/2): the closer
+    // the capacity is to the frame size or above, the more often the send buffer drains below its
+    // high-water mark before the half-close is issued (the close then meets no back-pressure).
+    let cap = move || {
+        if yamux {
+            Just(None).boxed()
+        } else {
+            prop_oneof![1 => Just(None), 3 => (1024u32..=65536).prop_map(Some), 1 => (65537u32..=400_000).prop_map(Some)].boxed()
+        }
+    };
+    (kind, bulk_dir(cap()), bulk_dir(cap()), bulk_stream(), proptest::collection::vec(stream_spec(), 0..=2), any::<u16>(), schedule(), prop::bool::weighted(0.6), any::<u16>()).prop_map(
+        |(kind, mut a_to_b, mut b_to_a, bs, mut streams, at, schedule, tight, frac)| {
+            if let (true, Kind::Mplex { a, b }) = (tight, &kind) {
+                let split = if bs.a_opens { a.0 } else { b.0 } as u32;
+                let c = Some(256 + (frac as u32 * split.max(1)) / (2 * 65536));
+                if bs.a_opens {
+                    a_to_b.capacity = c;
+                } else {
+                    b_to_a.capacity = c;
+                }
+            }
+            let at = vcore::pick(at, streams.len() + 1);
+            streams.insert(at, bs);
+            Case { kind, a_to_b, b_to_a, streams, schedule }
+        },
+    )
+}
+
+/// general class plus a small fraction (6 % mplex, 3 % yamux) of bulk cases
+fn strategy(yamux: bool) -> impl Strategy<Value = Case> {
+    prop_oneof![
+        if yamux { 97 } else { 94 } => general(yamux).boxed(),
+        if yamux { 3 } else { 6 } => bulk(yamux).boxed(),
+    ]
 }
 
 /// bounded-exhaustive schedules for a fixed two-stream scenario: every sequence of `len` choices
@@ -509,14 +850,21 @@ fn sweep_case(yamux: bool, len: usize, mut idx: usize) -> Case {
 
 pub fn run(ctx: &mut Ctx) {
     ctx.assume("mplex endpoints use MaxBufferBehaviour::Block (ResetStream drops data by design: C26); the pipe never fails and nobody drops a substream before the end of a case");
-    ctx.assume("bytes written but not followed by a completed flush/close need not be delivered; at quiescence flushed <= received <= written, and EOF iff the writer's close completed");
+    ctx.assume("bytes written but not followed by a completed flush/close need not be delivered; at quiescence flushed <= received <= written, and EOF iff the writer's close completed; a writer waiting for its peer's end-of-stream (AwaitEof) that never comes because the peer never closes is not a stall");
     ctx.assume("yamux pipes are unbounded: with both directions of a bounded pipe full, yamux 0.14 endpoints that each owe a Pong stop reading and block each other (transport-buffering requirement of the external crate, outside this statement)");
     ctx.assume("yamux measures round-trip times with the wall clock (window tuning); no assertion depends on frame or window sizes; yamux uses no randomness");
+    ctx.assume("labels buffered>=N-frames read mplex's own TRACE event for a buffered frame (field data_buffer) and the labels sink-above-high-water-mark / close-under-backpressure compare the bytes of accepted Data frames with the bytes that reached the pipe (lower bound of the send buffer, 128 KiB mark of asynchronous_codec): they measure the generator and take no part in the verdict");
     let n_m = ctx.n(40_000, 1_200_000);
     let n_y = ctx.n(25_000, 800_000);
-    let rule = "1..5 substreams opened by either endpoint after generated delays; per direction a script of 0..6 {write 1..4096 bytes, flush, close} (+ final close 70 %), generated read sizes; pipe with generated chunk scripts / spurious Pending / optional capacity; schedule of 0..300 picks (incl. spurious polls) then fair drain; non-trivial = at least 2 substreams were active at the same time, data flowed and a half was closed";
-    ctx.check::<Case>("mplex", &format!("mplex, per endpoint split_send_size in {{1..64,1024,8192}} and max_buffer_len 1..8 (Block); {rule}"), n_m, &|| strategy(false).boxed(), &check);
-    ctx.check::<Case>("yamux", &format!("yamux default config; {rule}"), n_y, &|| strategy(true).boxed(), &check);
+    let rule = "general class: 1..5 substreams opened by either endpoint after generated delays; per direction a script of 0..6 {write 1..4096 bytes, flush, close, wait for the peer's end-of-stream} (+ final close 70 %), generated read sizes; pipe with generated chunk scripts / spurious Pending / optional capacity. Bulk class: one substream whose opener writes 130..300 KiB in 1..2 writes without a flush in between and then (90 %) half-closes, whose acceptor (75 %) answers only after it has seen end-of-stream (small writes, sometimes 130..160 KiB), plus 0..2 general substreams; pipe chunks >= 1 KiB, spurious Pending. Every case: schedule of 0..300 picks (incl. spurious polls) then fair drain; non-trivial = at least 2 substreams were active at the same time, data flowed and a half was closed";
+    ctx.check::<Case>(
+        "mplex",
+        &format!("mplex (Block), max_buffer_len 1..8 per endpoint; 94 % general class with split_send_size in {{1..64,1024,8192}}, 6 % bulk class with split_send_size in {{256,1024,4096,8192,16384,65535}} and the written direction of the pipe bounded (60 %: 256 B .. 256 B + split/2, else unbounded / 1 KiB..64 KiB / up to 400 KB) so that the send buffer exceeds its 128 KiB high-water mark while the connection is not writable and the half-close is issued under that back-pressure; {rule}"),
+        n_m,
+        &|| strategy(false).boxed(),
+        &check,
+    );
+    ctx.check::<Case>("yamux", &format!("yamux default config, unbounded pipe; 97 % general class, 3 % bulk class; {rule}"), n_y, &|| strategy(true).boxed(), &check);
     let len = ctx.tier.sel(9usize, 12usize);
     for (name, y) in [("mplex-schedules", false), ("yamux-schedules", true)] {
         ctx.sweep::<Case, _>(
